@@ -71,6 +71,10 @@ def gen_poly(rng, max_rows=4, max_cols=4, allow_int16=True, small=False, narrow=
         idx[rng.randrange(1, m)] = idx[0]            # two rows that stem from the same proposition carry the same index id
     case = {"M": rows, "ids": ids, "bounds": [list(b) for b in bounds], "index": idx}
     if rng.random() < 0.1:
+        case["subclass_vars"] = True       # column variables are instances of a subclass of puan.variable
+    if rng.random() < 0.5:
+        case["dtype_int"] = True
+    if rng.random() < 0.1:
         case["numpy_bounds"] = True        # the bounds of every variable are narrow numpy integers (e.g. columns of an int8/int16 table)
     if rng.random() < 0.15:
         case["config"] = [rng.choice([-1, -1, -2]) for _ in range(n)]      # the receiver is a ge_polyhedron_config (subclass)
@@ -89,6 +93,11 @@ def build_poly(case, cls=None):
     first = puan.variable(fv[0], bounds=(fv[1], fv[2])) if fv else puan.variable.support_vector_variable()
 
     def mk(i, b):
+        if case.get("subclass_vars"):
+            from ..recipes import Item
+            return Item(i, bounds=tuple(b))
+        if tuple(b) == (-32768, 32767) and case.get("dtype_int"):
+            return puan.variable(i, dtype="int")            # the library's own way of declaring an integer variable
         if case.get("numpy_bounds"):
             t = numpy.int8 if -128 <= b[0] and b[1] <= 127 else numpy.int16
             return puan.variable(i, bounds=(t(b[0]), t(b[1])))
